@@ -303,6 +303,9 @@ StringDictionaryRPHTFC::StringDictionaryRPHTFC(IteratorDictString *it,
   }
 
   tableHT = builderHT->getTable();
+  // The coder created above can only encode: attach the decoding table
+  delete coderHT;
+  coderHT = new StatCoder(tableHT, codewordsHT);
   delete builderHT;
 }
 
